@@ -25,8 +25,12 @@ CORR_ONLY = ["exactness to degree 2n-1: PROVED for all n for the rule with nodes
 ASSUMPTIONS = ["weights 'to rounding': since fix f38103c pp is evaluated at the returned node, so the tolerance is rounding only: node rounding "
                "(<= 4 * 2^-53) propagated through the weight's conditioning 2|t|/(1-t^2), plus n/4 * 2^-53 growth of the recurrence; measured worst "
                "sum w error 7.6 eps (n = 435); before the fix (pp of the previous Newton iterate, stopping rule 1e-14) it was 208 eps (n = 1001)",
+               "rows of roots_and_weights of any length other than 2 (0, 1, 3, a transposed rule with n != 2) are rejected with a diagnostic "
+               "since fix 455b721; a transposed 2-point rule (2 rows of 2 entries) is indistinguishable from a rule and is accepted",
+               "intervals with |b-a| > DBL_MAX (e.g. [-DBL_MAX, DBL_MAX]) have infinite weights: b-a itself is not a double - outside the statement; "
+               "widths below 64 n^2 DBL_MIN (subnormal weights) are outside the generated range",
                "narrow intervals: the order is limited so that neighbouring end nodes are >= 2 ulp apart (below ~1 ulp strict monotonicity "
-               "cannot hold in double precision)",
+               "cannot hold in double precision); the generator admits every order whose true end gap h(1-z_0) is >= 1.0 ulp of the limits",
                "the model's Newton iteration runs in rounded rational arithmetic (2^-200) with a Taylor cosine and a 100-digit "
                "rational pi: validated by the driver self-test (cos(pi/3), cos(pi/4), cos(pi/6), cos(2pi/3)), not verified",
                "std::cos of libm is accurate enough for Newton to converge to root i from the coded start value"]
@@ -42,11 +46,11 @@ ONE = 1 << P
 # relative, and sum w by at most sum |w| cond dz.  NODE_ULPS bounds dz in units of 2^-53 (nodes agree with the reference to
 # 1.6 * 2^-53 (|a|+|b|)); the recurrence adds a rounding growth proportional to n to pp (measured: n/4).
 # Measured on HEAD (thorough seed 1, quick seeds 1-2): sum w error <= 1.21 * eps * (sum|w|cond + L) [7.6 eps L at n = 435];
-# weight error <= 1.83 * eps * |w| * (1 + cond + n/4).  Constants below carry a x3-4 margin over these.
+# weight error <= 4.65 * eps * |w| * (1 + cond + n/4) (n = 926; 2.6 over the entries sampled in thorough).  Constants below carry a x2.5-4 margin.
 NODE_ULPS = 4
 NEWTON = NODE_ULPS * EPS          # (name kept: the former Newton-stopping term 3e-14 is gone with f38103c)
 K_NODE = 4         # |dx|  <= K_NODE * eps * (|a|+|b|)   (audit: worst 1.01, own thorough runs: 1.9)
-K_WEIGHT = 8       # |dw|  <= |w| * K_WEIGHT * eps * (1 + cond(t) + n/4)
+K_WEIGHT = 12      # |dw|  <= |w| * K_WEIGHT * eps * (1 + cond(t) + n/4)   (worst measured: 4.65 at n = 926, audit D; 2.6 in own thorough runs)
 K_SUM = 4          # |sum w - (b-a)| <= eps * (NODE_ULPS * sum |w| cond + K_SUM * |b-a|)
 
 
@@ -94,6 +98,15 @@ def generate(tier, seed, ctx):
             idx = sorted(set([0, 1, n // 2 - 1, n // 2, (n - 1) // 2, n - 2, n - 1] + [rng.randrange(n) for _ in range(6)]))
             R.append("c12.sel %d %s %s %s" % (n, hx(a), hx(b), ilst(idx)))
             ctx["cls"][len(R) - 1] = cls
+    if thorough:      # every order 513..4000: the cheap clauses (inside, monotone, signs, symmetry, sum of the weights)
+        for n in range(513, 4001):
+            cls, a, b = ("canon", -1.0, 1.0) if n % 4 == 0 else rng.choice(_intervals(rng, 7, thorough))
+            if n % 37 == 0:      # entries against the model at every 37th order (ends, middle, random)
+                idx = sorted(set([0, 1, n // 2, n - 2, n - 1] + [rng.randrange(n) for _ in range(4)]))
+                R.append("c12.sel %d %s %s %s" % (n, hx(a), hx(b), ilst(idx)))
+            else:
+                R.append("c12.sel %d %s %s 0" % (n, hx(a), hx(b)))
+            ctx["cls"][len(R) - 1] = "exh:" + cls
     # sample of large orders, odd and even
     if thorough:
         big = [4000, 3999] + [rng.randint(513, 4000) for _ in range(22)]
@@ -157,6 +170,37 @@ def generate(tier, seed, ctx):
         else:              # random walk of positions with one width, mixed with another width
             mem = [(n, q, q + (w if j % 3 else 2 * w)) for j, q in enumerate(dyadic(rng, -3, 3, 2) for _ in range(5))]
         _iseq(c, mem)
+    # consecutive calls of the integrating overload whose limits are DIFFERENT doubles but agree to 1 ulp ... 1e-9 relative
+    # (a rule is fixed by the exact limits, not by limits "equal" to some tolerance): perturbed pairs, and composite-rule
+    # panel walks far from the origin (adjacent panels whose ends differ by < 1e-10 relative)
+    def _near(x, d):
+        if d == "ulp":
+            return math.nextafter(x, math.inf)
+        return x * (1.0 + d) if x != 0.0 else d
+    for t in range(10 if not thorough else 40):
+        n = rng.choice([2, 3, 5, 8, 16, 30]) if t % 2 else rng.randint(1, 40)
+        deg = rng.randint(1, min(2 * n - 1, 5))
+        c = [float(rng.randint(-9, 9)) / rng.choice([1, 2, 4]) for _ in range(deg)] + [1.0]
+        d1 = rng.choice(["ulp", 2.0 ** -40, 2.0 ** -36, 1e-11, 3e-11, 1e-10, 1e-9])
+        d2 = rng.choice(["ulp", 2.0 ** -40, 2.0 ** -36, 1e-11, 3e-11, 1e-10, 1e-9])
+        kind = t % 4
+        if kind == 3:      # composite rule: adjacent panels of relative width 2^-40 ... 2^-34 at 2^10 ... 2^30
+            x0 = 2.0 ** rng.randint(10, 30) * rng.choice([1.0, -1.0, 1.5])
+            w = abs(x0) * 2.0 ** -rng.randint(34, 40)
+            mem = [(n, x0 + i * w, x0 + (i + 1) * w) for i in range(4)]
+            c = [0.0, 0.0, 0.0, 1.0] if t % 8 == 3 else c
+        else:
+            a0 = dyadic(rng, -4, 4, 3) if t % 3 else 0.0
+            b0 = a0 + rng.choice([0.5, 1.0, 2.5])
+            if kind == 0:      # upper limit moves
+                mem = [(n, a0, b0), (n, a0, _near(b0, d1)), (n, a0, b0)]
+            elif kind == 1:    # lower limit moves (not representable as relative change when a0 = 0: absolute)
+                mem = [(n, a0, b0), (n, _near(a0, d1), b0), (n, _near(a0, d1), _near(b0, d2))]
+            else:              # both move, reversed orientation
+                mem = [(n, b0, a0), (n, _near(b0, d1), _near(a0, d2)), (n, b0, a0)]
+        _iseq(c, mem)
+        if t % 5 == 0:
+            _seq([(m_[0], m_[1], m_[2]) for m_ in mem])
     # re-entrant use: the integrand of overload (func,a,b,n) calls overload (func,a',b',n') with limits that depend
     # on the outer variable (iterated integrals over triangles/trapezia); same and different orders, >= 8 outer nodes
     for t in range(10 if not thorough else 40):
@@ -185,24 +229,91 @@ def generate(tier, seed, ctx):
         ts.append((2.0, 0, min(1, jmax)))
         R.append("c12.reent %d %d %s %s %s %s %s %s %d %s" % (nO, nI, hx(a0), hx(b0), hx(l0), hx(l1), hx(h0), hx(h1), len(ts),
                                                        " ".join("%s %d %d" % (hx(c), i, j) for c, i, j in ts)))
-    # narrow intervals far from the origin: |b-a|/max(|a|,|b|) log-uniform from 1e-6 down to 1e-13, still >= ~1e3 ulps
-    # wide; the order is limited so that neighbouring nodes (spacing ~ 1.4 (b-a)/n^2 at the ends) stay >= 2 ulps apart
-    for t in range(24 if not thorough else 120):
-        rel = 10.0 ** rng.uniform(-13, -6)
+    # narrow intervals far from the origin: |b-a|/max(|a|,|b|) log-uniform from 1e-6 down to the resolution of doubles;
+    # the order is limited only by the true end gap h (1 - z_0) >= 1.0 ulp of the limits (below that a node cannot lie
+    # strictly between the limit and its neighbour in double precision)
+    def _gap(n):      # 1 - z_0 for the coded start value (accurate to O(n^-4))
+        return 1.0 - math.cos(math.pi * 0.75 / (n + 0.5))
+    for t in range(30 if not thorough else 150):
+        rel = 10.0 ** rng.uniform(-15.3, -6)
         mag = 10.0 ** rng.uniform(0, 13) * rng.choice([-1.0, 1.0])
         a0 = mag * rng.uniform(1, 9.99)
         ulp = math.ulp(abs(a0))
-        wdt = max(abs(a0) * rel, 1100 * ulp)
+        wdt = max(abs(a0) * rel, 2 * ulp)
         b0 = a0 + wdt if t % 3 else a0 - wdt
-        wulps = abs(b0 - a0) / max(math.ulp(abs(a0)), math.ulp(abs(b0)))
-        nmax = max(1, min(40, int(math.sqrt(wulps * 1.4 / 2))))
+        u = max(math.ulp(abs(a0)), math.ulp(abs(b0)))
+        h = abs(b0 - a0) / 2
+        nmax = 1
+        for cand in range(1, 513):
+            if h * _gap(cand) >= 1.0 * u:
+                nmax = cand
+            else:
+                break
+        if h < u:
+            continue
         n = rng.randint(1, nmax) if t % 2 else nmax
-        R.append("c12.rule %d %s %s" % (n, hx(a0), hx(b0)))
+        if n <= 96:
+            R.append("c12.rule %d %s %s" % (n, hx(a0), hx(b0)))
+        else:      # (the model computes selected entries only; the oracle sees the full rule)
+            idx = sorted(set([0, 1, n // 2, n - 2, n - 1] + [rng.randrange(n) for _ in range(5)]))
+            R.append("c12.sel %d %s %s %s" % (n, hx(a0), hx(b0), ilst(idx)))
         ctx["cls"][len(R) - 1] = "narrow-rev" if b0 < a0 else "narrow"
         if t % 4 == 0:
             c = [float(rng.randint(-3, 3)), float(rng.randint(1, 3))]
-            R.append("c12.integ %s %s %s %d" % (lst(c), hx(a0), hx(b0), n))
-    # overloads on explicit data: equal and mismatched sizes
+            R.append("c12.integ %s %s %s %d" % (lst(c), hx(a0), hx(b0), min(n, 40)))
+    # the whole exponent range: limits up to 2^1023 (|a+b| > DBL_MAX, opposite signs with |b-a| <= DBL_MAX), down to 1e-300
+    # (width >= 64 n^2 DBL_MIN so that no weight is subnormal)
+    DBL_MAX = sys.float_info.max
+    for t in range(24 if not thorough else 96):
+        kind = t % 6
+        n = rng.choice([1, 2, 3, 5, 8, 16, 31, 64]) if t % 2 else rng.randint(1, 64)
+        if kind == 0:      # same sign, sum overflows
+            a0 = rng.uniform(0.5, 0.9) * DBL_MAX; b0 = rng.uniform(0.91, 1.0) * DBL_MAX
+        elif kind == 1:    # negative, reversed
+            a0 = -rng.uniform(0.91, 1.0) * DBL_MAX; b0 = -rng.uniform(0.5, 0.9) * DBL_MAX; a0, b0 = b0, a0
+        elif kind == 2:    # opposite signs, difference still finite
+            a0 = -rng.uniform(0.1, 0.49) * DBL_MAX; b0 = rng.uniform(0.1, 0.49) * DBL_MAX
+        elif kind == 3:    # 2^1023 exactly at one end
+            a0 = 2.0 ** 1023; b0 = 2.0 ** 1023 * rng.uniform(0.3, 0.9)
+        elif kind == 4:    # tiny magnitudes
+            a0 = rng.choice([-1, 1]) * 10.0 ** rng.uniform(-300, -250); b0 = a0 * rng.uniform(1.5, 9) if t % 12 < 6 else -a0 * rng.uniform(0.2, 3)
+        else:              # huge dynamic range inside one interval
+            a0 = 10.0 ** rng.uniform(-300, -100); b0 = 10.0 ** rng.uniform(100, 307) * rng.choice([-1, 1])
+        if kind == 4 and abs(b0 - a0) < 64 * n * n * sys.float_info.min:
+            continue
+        R.append("c12.rule %d %s %s" % (n, hx(a0), hx(b0)))
+        ctx["cls"][len(R) - 1] = ["huge-sum", "huge-neg-rev", "huge-opposite", "2^1023", "tiny", "wide-range"][kind]
+        if kind in (0, 2):      # integrand bounded by 1/2 so that f(x) w and the sum stay finite
+            R.append("c12.integ %s %s %s %d" % (lst([0.25, 2.0 ** -1024 * rng.choice([-1.0, 0.0, 1.0])]), hx(a0), hx(b0), n))
+        elif kind == 4:
+            R.append("c12.integ %s %s %s %d" % (lst([float(rng.randint(1, 3)), float(rng.randint(-3, 3))]), hx(a0), hx(b0), n))
+    # reversed limits give the mirror image with every weight negated, bit for bit (theorem gl_reversed)
+    for n in (range(0, 65) if not thorough else range(0, 513)):
+        cls, a0, b0 = rng.choice(_intervals(rng, 7, thorough))
+        R.append("c12.rev %d %s %s" % (n, hx(a0), hx(b0)))
+    # rows that are not (root, weight) pairs (fix 455b721): lengths 0, 1, 3, a transposed rule, one bad row among good ones
+    for t in range(30 if not thorough else 90):
+        nr = rng.randint(1, 6)
+        kind = t % 6
+        rows = [[dyadic(rng, -4, 4, 2), dyadic(rng, -2, 2, 3)] for _ in range(nr)]
+        if kind == 0:
+            rows[rng.randrange(nr)] = []
+        elif kind == 1:
+            rows[rng.randrange(nr)] = [dyadic(rng, -4, 4, 2)]
+        elif kind == 2:
+            rows[rng.randrange(nr)] = [dyadic(rng, -4, 4, 2) for _ in range(3)]
+        elif kind == 3:    # transposed: 2 rows of nr entries (accepted only when nr = 2)
+            rows = [[r[0] for r in rows], [r[1] for r in rows]]
+        elif kind == 4:
+            rows = [[r[0], r[1], 0.0] for r in rows]
+        rs = "%d %s" % (len(rows), " ".join(lst(r) for r in rows))
+        vals = [dyadic(rng, -8, 8, 3) for _ in range(len(rows))]
+        R.append("c12.rowsvals %s %s" % (lst(vals), rs))
+        R.append("c12.rowsfunc %s %s" % (lst([dyadic(rng, -4, 4, 2) for _ in range(rng.randint(1, 4))]), rs))
+    # overloads on explicit data: equal and mismatched sizes (always including an empty side against a non-empty one)
+    for (vals, rw) in (([], [(0.5, 1.0), (1.5, 2.0), (2.5, -1.0)]), ([1.0, 2.0], []), ([], []), ([3.0], [(0.25, 2.0)]), ([3.0], [(0.25, 2.0), (0.5, 1.0)])):
+        R.append("c12.sumvals %s %d %s" % (lst(vals), len(rw), " ".join(hx(x) + " " + hx(w) for x, w in rw)))
+        R.append("c12.rowsvals %s %d %s" % (lst(vals), len(rw), " ".join(lst([x, w]) for x, w in rw)))
     for t in range(120 if thorough else 40):
         n = rng.randint(0, 12)
         rw = [(dyadic(rng, -8, 8, 3), dyadic(rng, -2, 2, 4)) for _ in range(n)]
@@ -219,7 +330,7 @@ def generate(tier, seed, ctx):
         deg = rng.randint(0, min(2 * n - 1, 12))
         c = [float(rng.randint(-9, 9)) / rng.choice([1, 2, 4]) for _ in range(deg + 1)]
         cls, a, b = rng.choice(_intervals(rng, 7, thorough)[:5])
-        if cls in ("far", "scaled"):
+        if cls in ("far", "scaled") and t % 2:
             a, b = rng.uniform(-3, 3), rng.uniform(-3, 3)
         R.append("c12.integ %s %s %s %d" % (lst(c), hx(a), hx(b), n))
     for t in range(6):
@@ -246,7 +357,51 @@ def _worst(ctx, key, v):
         ctx["worst"][key] = v
 
 
-def oracle_rule(n, a, b, xs, ws, ctx):
+def oracle_cheap_fast(n, a, b, xs, ws, ctx):
+    """the cheap clauses (inside, monotone, signs, symmetry, sum of the weights) in exact INTEGER arithmetic on a common
+    binary scale - same clauses and tolerances as oracle_rule, for the exhaustive orders 513..4000"""
+    if any(math.isnan(v) or math.isinf(v) for v in xs + ws):
+        return [("nodes/weights not finite", "")]
+    vals = [v for v in xs + ws + [a, b] if v != 0.0]
+    E = min(math.frexp(v)[1] for v in vals) - 53
+    def ti(v):
+        if v == 0.0:
+            return 0
+        m, e = math.frexp(v)
+        return int(m * 9007199254740992.0) << (e - 53 - E)
+    X = [ti(v) for v in xs]; W = [ti(v) for v in ws]; A = ti(a); B = ti(b)
+    out = []
+    sgn = 1 if B > A else -1
+    lo, hi = min(A, B), max(A, B)
+    if not all(lo < x < hi for x in X):
+        out.append(("a node is not strictly inside the interval", ""))
+    if not all((X[i + 1] - X[i]) * sgn > 0 for i in range(n - 1)):
+        out.append(("nodes are not strictly monotone in the direction of the limits", ""))
+    if not all(w * sgn > 0 for w in W):
+        out.append(("a weight does not have the sign of b-a", ""))
+    sc = abs(A) + abs(B)
+    for k in range(n // 2 + 1):
+        d = abs(X[k] + X[n - 1 - k] - (A + B))
+        if d * (1 << 53) > 2 * sc:
+            out.append(("nodes not symmetric about the midpoint", "k=%d" % k)); break
+        if ws[k] != ws[n - 1 - k]:
+            out.append(("weights not symmetric", "k=%d" % k)); break
+    L = abs(b - a)
+    mid, h = 0.5 * a + 0.5 * b, 0.5 * b - 0.5 * a
+    Sc = 0.0
+    for x, w in zip(xs, ws):
+        t = (x - mid) / h
+        Sc += abs(w) * 2 * abs(t) / max(1 - t * t, 1e-300)
+    tol = float(EPS) * (NODE_ULPS * Sc + K_SUM * L) * (1 + 1e-9)
+    d = abs(sum(W) - (B - A))
+    dflt = float(Fraction(d) * Fraction(2) ** E) if E >= 0 else float(Fraction(d, 2 ** (-E)))
+    _worst(ctx, "sumw/tol", dflt / tol if tol else 0.0)
+    if dflt > tol:
+        out.append(("weights do not sum to b-a", "defect %.3g of %.3g (tolerance %.3g)" % (dflt, L, tol)))
+    return out
+
+
+def oracle_rule(n, a, b, xs, ws, ctx, cheap=False):
     """xs, ws: floats as returned by the implementation.  Returns a list of (clause, detail)."""
     out = []
     A, B = Fraction(a), Fraction(b)
@@ -283,7 +438,7 @@ def oracle_rule(n, a, b, xs, ws, ctx):
     _worst(ctx, "sumw/tol", float(d / tol))
     if d > tol:
         out.append(("weights do not sum to b-a", "defect %.3g of %.3g (tolerance %.3g)" % (float(d), float(L), float(tol))))
-    if out:
+    if out or cheap:
         return out
     # exactness in the Legendre basis of the interval: sum_i w_i P_k(t_i) = 0 (k>=1), = b-a (k=0)
     dmax = min(2 * n - 1, 60)
@@ -292,11 +447,11 @@ def oracle_rule(n, a, b, xs, ws, ctx):
     p0 = [ONE] * n
     p1 = list(T)
     ncond = float(sc / L)             # node rounding relative to the half width
-    newton1 = float(newton / abs(h))
     for k in range(1, dmax + 1):
         s = sum((w * p) >> P for w, p in zip(Wf, p1))
-        # tolerance: node rounding eps*(|a|+|b|)/h times |P_k'| <= k(k+1)/2, weight errors, on the scale sum|w| = 2
-        tol = newton1 + (32 + 4 * k * k * (1 + ncond)) * (1 + n / 64.0) * 2.0 ** -53 * 2
+        # tolerance, flat in the degree and in the order (audit probe: worst 2.7 in these units): node rounding
+        # 2^-53 (|a|+|b|)/h relative to the half width enters through ncond, on the scale sum |w| = 2
+        tol = 16 * 2.0 ** -53 * 2 * (1 + ncond)
         r = abs(s) / ONE
         _worst(ctx, "legendre-residual/tol", r / tol)
         if r > tol:
@@ -489,7 +644,7 @@ def compare_iseq(rq, impl, model, ctx):
         if len(c) - 1 <= 2 * n - 1:
             exact = sum(ck * (B ** (j + 1) - A ** (j + 1)) / (j + 1) for j, ck in enumerate(c))
             scale = sum(abs(ck) * max(abs(A), abs(B)) ** j for j, ck in enumerate(c)) * abs(B - A)
-            tol = Fraction(32 * (len(c) + 4)) * EPS * scale * (1 + Fraction(n, 64))
+            tol = Fraction(4 * (len(c) + 4)) * EPS * scale
             v = fl(sv)
             if math.isnan(v) or math.isinf(v) or abs(Fraction(v) - exact) > tol:
                 out.append(fail("prop", "polynomial of degree <= 2n-1 not integrated exactly (integrating overload)",
@@ -517,6 +672,49 @@ def _ppow(p, k):
     for _ in range(k):
         r = _pmul(r, p)
     return r
+
+
+def compare_rev(rq, impl, model, ctx):
+    """'for reversed limits the rule is the mirror image with all weights negated' - bit for bit (theorem gl_reversed;
+    the middle root of an odd rule is exactly 0 in the code as in the model)"""
+    a = rq.split()[1:]
+    n = int(a[0])
+    fs, both = std_outcome(rq, impl, model)
+    if tag(impl) == "timeout":
+        return [fail("prop", "Newton iteration does not terminate", "n=%d" % n)]
+    if not both:
+        return fs
+    rules, pos = _parse_rules(toks(impl), 0, 2)
+    if rules is None or len(rules[0][0]) != n or len(rules[1][0]) != n:
+        return fs + [fail("prop", "rule does not have n rows of (node, weight)", impl[:100])]
+    (fx, fw), (rx, rw) = rules
+    ctx["nontrivial"].add(("c12.rev", n))
+    sc = abs(Fraction(fl(a[1]))) + abs(Fraction(fl(a[2])))
+    for k in range(n):
+        if 2 * k == n - 1 and fl(rw[k]) == -fl(fw[k]) and abs(Fraction(fl(rx[k])) - Fraction(fl(fx[k]))) <= 2 * EPS * sc:
+            # the middle node of an odd rule is mid + h z resp. mid - h z with the middle root z, which the Newton
+            # iteration leaves at ~1e-32 instead of exactly 0 for some orders (29, 39, 49, ...): equal to rounding only
+            if fl(rx[k]) != fl(fx[k]):
+                bump(ctx, "rev:middle-node-differs-by-2hz")
+            continue
+        if not (fl(rx[k]) == fl(fx[n - 1 - k]) and fl(rw[k]) == -fl(fw[n - 1 - k])):
+            return fs + [fail("prop", "reversed limits do not give the mirror image with all weights negated",
+                              "n=%d [%s,%s]: entry %d of the reversed rule (%r, %r) vs entry %d of the forward rule (%r, %r)"
+                              % (n, a[1], a[2], k, fl(rx[k]), fl(rw[k]), n - 1 - k, fl(fx[n - 1 - k]), fl(fw[n - 1 - k])))]
+    return fs
+
+
+def compare_rows(rq, impl, model, ctx):
+    """rule-taking overloads on raw rows (fix 455b721, theorem gl_row_shape): a row that is not a (root, weight) pair is a
+    diagnostic; otherwise the exact weighted sum (dyadic data: exact in double)"""
+    fs, both = std_outcome(rq, impl, model)
+    ctx["nontrivial"].add((rq.split()[0], tag(model), len(rq.split()) // 6))
+    if not both:
+        return fs
+    v, m = fl(toks(impl)[0]), fr(toks(model)[0])
+    if Fraction(v) != m:
+        return fs + [fail("prop", "overload does not return the weighted sum of the values", "%r vs %s" % (v, float(m)))]
+    return fs
 
 
 def compare_reent(rq, impl, model, ctx):
@@ -558,7 +756,7 @@ def compare_reent(rq, impl, model, ctx):
         if j > 2 * nI - 1 or i + j + 1 > 2 * nO - 1:
             exactable = False
     if exactable:
-        tol = Fraction(512 * 16) * EPS * scale * (1 + Fraction(max(nO, nI), 64))
+        tol = Fraction(64) * EPS * scale
         if scale:
             _worst(ctx, "reent/tol", float(abs(Fraction(v[0]) - tot) / tol))
         if math.isnan(v[0]) or math.isinf(v[0]) or abs(Fraction(v[0]) - tot) > tol:
@@ -592,6 +790,10 @@ def compare(rq, impl, model, ctx):
         return compare_iseq(rq, impl, model, ctx)
     if op == "c12.reent":
         return compare_reent(rq, impl, model, ctx)
+    if op == "c12.rev":
+        return compare_rev(rq, impl, model, ctx)
+    if op in ("c12.rowsvals", "c12.rowsfunc"):
+        return compare_rows(rq, impl, model, ctx)
     fs, both = std_outcome(rq, impl, model)
     if op in ("c12.rule", "c12.sel"):
         n, x0, x1 = int(a[0]), fl(a[1]), fl(a[2])
@@ -608,9 +810,11 @@ def compare(rq, impl, model, ctx):
         xs, ws = pr
         out = list(fs)
         # the property itself on the implementation's output
-        orc = oracle_rule(n, x0, x1, xs, ws, ctx)
+        orc = oracle_cheap_fast(n, x0, x1, xs, ws, ctx) if cls.startswith("exh:") else oracle_rule(n, x0, x1, xs, ws, ctx)
         for clause, det in orc:
             out.append(fail("prop", clause, "n=%d [%r,%r] %s" % (n, x0, x1, det)))
+        if any(math.isnan(v) or math.isinf(v) for v in xs + ws):
+            return out      # (reported above as 'nodes/weights not finite')
         if tag(model) == "ok":
             ctx["nontrivial"].add((op, n, cls))
             tm = toks(model)
@@ -647,13 +851,16 @@ def compare(rq, impl, model, ctx):
         r = [fl(t) for t in toks(impl)]
         m = fr(toks(model)[0])
         out = list(fs)
+        if any(math.isnan(v) or math.isinf(v) for v in r):
+            return out + [fail("prop", "polynomial of degree <= 2n-1 not integrated exactly (integrating overload)",
+                               "result not finite on [%r, %r] with n=%d: %r" % (x0, x1, n, r))]
         if not (r[0] == r[1] == r[2]):
             out.append(fail("prop", "the three Integrate_Gauss_Legendre overloads disagree on the same rule", repr(r)))
         A, B = Fraction(x0), Fraction(x1)
         # exact integral (degree <= 2n-1): the model's rule is exact to 1e-27, so model ~ exact
         exact = sum(ck * (B ** (k + 1) - A ** (k + 1)) / (k + 1) for k, ck in enumerate(c))
         scale = sum(abs(ck) * max(abs(A), abs(B)) ** k for k, ck in enumerate(c)) * abs(B - A)
-        tol = Fraction(32 * (nc + 4)) * EPS * scale * (1 + Fraction(n, 64))
+        tol = Fraction(4 * (nc + 4)) * EPS * scale
         if scale:
             _worst(ctx, "integ/tol", float(abs(Fraction(r[0]) - exact) / tol))
         if abs(Fraction(r[0]) - exact) > tol:
@@ -671,6 +878,8 @@ def oracle_only(rq, impl, ctx):
         return [f for f in compare_seq(rq, impl, "undef", ctx) if f["kind"] == "prop"]
     if op == "c12.iseq":
         return [f for f in compare_iseq(rq, impl, "undef", ctx) if f["kind"] == "prop"]
+    if op == "c12.rev":
+        return [f for f in compare_rev(rq, impl, "ok", ctx) if f["kind"] == "prop"]
     a = rq.split()[1:]
     if op in ("c12.rule", "c12.sel") and tag(impl) == "ok":
         n, x0, x1 = int(a[0]), fl(a[1]), fl(a[2])
